@@ -44,7 +44,20 @@ def dblOp (op : String) (a b : Float) : Option String :=
     | .host => some (showBits (a / b))
   | _ => none
 
+/-- prefix notation: `lit z | neg A | add A B | sub A B | mul A B | div A B | mod A B` -/
+partial def parseA : List String → Option (AExpr × List String)
+  | "lit" :: z :: rest => (parseInt? z).map fun z => (.lit z, rest)
+  | "neg" :: rest => do let (a, r) ← parseA rest; pure (.neg a, r)
+  | op :: rest => do
+      let o ← (match op with
+        | "add" => some AOp.add | "sub" => some .sub | "mul" => some .mul | "div" => some .div | "mod" => some .mod
+        | _ => none)
+      let (a, r1) ← parseA rest; let (b, r2) ← parseA r1; pure (.bin o a b, r2)
+  | [] => none
+
 def handle : Handler
+  | "x" :: rest => match parseA rest with
+      | some (e, []) => showInt (evalA e) | _ => "bad-op"
   | ["i", op, a, b] => match parseInt? a, parseInt? b with
       | some a, some b => (intOp op a b).map showInt |>.getD "bad-op"
       | _, _ => "bad-op"
